@@ -12,6 +12,13 @@ structure DState where
   /-- signatures declared valid by the harness (`note sig <sig> <key> <msg>`): the model's
       `verify` is membership in this table; the harness realises them with real ed25519 -/
   sigs : List (Bytes × Bytes × Bytes) := []
+  /-- ghost history for the monitors (never read by the model): proposal hashes whose last
+      authenticated command was a cancel (time locks / operator approvals) -/
+  cancelledTL : List Bytes := []
+  cancelledOp : List Bytes := []
+  /-- … and among those, the ones a failure callback has written back since the cancel -/
+  restoredTL : List Bytes := []
+  restoredOp : List Bytes := []
 
 def crypto (st : DState) : Crypto :=
   { H := Keccak.keccak256,
